@@ -11,6 +11,7 @@ Helper lemmas: `P2/Lemmas/C21.lean`.
 import P2.Model.SyncSched
 import P2.Lemmas.C21
 import P2.Lemmas.C21Core
+import P2.Extracted.C21
 
 namespace P2.C21
 open P2.Sched
@@ -214,5 +215,22 @@ example :
        ⟨true, .recv⟩, ⟨true, .enq⟩, ⟨true, .flush⟩, ⟨true, .enq⟩, ⟨true, .flush⟩, ⟨true, .recv⟩,
        ⟨false, .recv⟩, ⟨false, .recv⟩]).map (finished cfg) = some true := by decide
 example : syncTotal [2, 1] = 4 ∧ syncTotal [1] = 2 ∧ syncTotal [] = 0 := by decide
+
+/-! ## Tie to the current source text (regenerated into `P2/Extracted/C21.lean` on every run) -/
+
+/-- The scheduling structure of `LogSync::run` the LTS encodes, as `log_sync.rs` reads *now*: the
+    session starts by sending (`Start → SendHave`: `canEnq` at `s = 0`); the `Sync`-state `select!`
+    is not `biased`; its receive arm is guarded by `!sync_done_received` only (`canRecv`), its send
+    arm has **no** guard (`canEnq` needs nothing but `¬w ∧ s < total` in the `Sync` state — so the
+    verdict depends on the transport capacity alone); operations are sent with `.await` inside the
+    arm body (`Orig`: no receive while `w`); the loop exits iff both `Done`s were seen (`finished`). -/
+theorem c21_extracted_select_structure :
+    P2.Extracted.C21.firstState = "SendHave" ∧
+    P2.Extracted.C21.selectBias = "" ∧
+    P2.Extracted.C21.recvArmGuard = ", if !sync_done_received" ∧
+    P2.Extracted.C21.sendArmGuard = "" ∧
+    P2.Extracted.C21.opSendAwait = ".await" ∧
+    P2.Extracted.C21.exitCond = "sync_done_received && sync_done_sent" :=
+  ⟨rfl, rfl, rfl, rfl, rfl, rfl⟩
 
 end P2.C21
